@@ -74,3 +74,38 @@ Print Assumptions C07_subgraph_rejects.
 (* the pinned commit indexed the distance vector with an unchecked source *)
 Example C07_refuted_on_pinned_paths : bfs_single false [[1]; []] 7 = Undef IndexOOB /\ find_geodesics false [[1]; []] 7 7 = Undef IndexOOB.
 Proof. vm_compute. auto. Qed.
+
+(* ---- histories that contain forced calls: whether a call is accepted or rejected, and with which exception, is still determined
+   (CodesSpec.v keeps the number of vertices and the presence of every pair through forced duplicates and forced labels); the
+   model returns exactly that code at every step, for every history, and never reaches undefined behaviour ---- *)
+From BG Require Import Instances CodesSpec CodesProofs.
+Theorem C07_codes_after_forced_calls_directed : forall hs n ops, codes_agree (d_trace hs repaired n ops) (d_codes n ops).
+Proof. exact CodesProofs.d_codes_sound. Qed.
+Print Assumptions C07_codes_after_forced_calls_directed.
+Theorem C07_codes_after_forced_calls_undirected : forall hs n ops, codes_agree (u_trace_z hs repaired n ops) (u_codes n ops).
+Proof. exact CodesProofs.u_codes_sound. Qed.
+Print Assumptions C07_codes_after_forced_calls_undirected.
+Theorem C07_every_call_returns_directed : forall hs n ops, length (d_trace hs repaired n ops) = length ops.
+Proof. exact CodesProofs.d_trace_full. Qed.
+Print Assumptions C07_every_call_returns_directed.
+Theorem C07_every_call_returns_undirected : forall hs n ops, length (u_trace_z hs repaired n ops) = length ops.
+Proof. exact CodesProofs.u_trace_full. Qed.
+Print Assumptions C07_every_call_returns_undirected.
+(* non-vacuity: the seeded change C07-4 in one line - a label forced onto a missing pair, then an unforced setEdgeLabel on it must be rejected *)
+Example C07_codes_example : u_codes 3 [inl (USetLabel 1 2 3%Z true); inl (USetLabel 1 2 3%Z false)] = [Some [[0%Z]; codes_only]; Some [[zexn InvalidArgument]; codes_only]].
+Proof. vm_compute. reflexivity. Qed.
+
+(* the two path-reconstruction entry points called directly (they take vertex indices themselves): out of range in either position,
+   equal or not, is rejected before the predecessor table is looked at *)
+From BG Require Import PathsCases.
+Theorem C07_path_reconstruction_rejects : forall (g : adjl) (s t fuel : nat) once, length g <= s \/ length g <= t ->
+  direct_path true g s t = Raise OutOfRange /\ direct_paths true once fuel g s t = Raise OutOfRange.
+Proof.
+  intros g s t fuel once H.
+  assert (B : forall n v, n <= v -> Nat.ltb v n = false) by (intros; apply Nat.ltb_ge; auto).
+  unfold direct_path, direct_paths, checked. cbn [forallb]. destruct H as [H|H]; rewrite (B _ _ H); cbn; rewrite ?andb_false_r; auto.
+Qed.
+Print Assumptions C07_path_reconstruction_rejects.
+(* on valid arguments the direct calls return what findGeodesics / findAllGeodesics return whenever the destination is reached *)
+Example C07_direct_path_example : direct_path true [[1]; [2]; []] 0 2 = Val [0; 1; 2] /\ direct_path true [[1]; [2]; []] 3 3 = Raise OutOfRange /\ direct_path true [[1]; [2]; []] 2 0 = Raise RuntimeError.
+Proof. vm_compute. auto. Qed.
